@@ -99,8 +99,8 @@ claimed = {
  "C05": dict(
    text="BLS serialization: Fr_read_bytes/Fr_star_read_bytes/Fr_write_bytes, Fp_read_bytes/Fp_write_bytes, Fp2_read/write_bytes, E1/E2_read_bytes, E1/E2_write_bytes (C, verified from the clang AST against the ZCash compressed format) and their Go callers readScalarFrStar, readPointE1/E2, writeScalar, writePointE1/E2, decodePrivateKey, decodePublicKey, decodePublicKeyCompressed, prKey/pubKey Encode: "
         "accepted private keys are exactly the 32-byte big-endian scalars in [1, r-1] (else invalidInputsError) and the key holds that scalar; accepted public keys are exactly 96-byte canonical encodings of G2 points (membership check included) and the key holds the decoded point with its identity flag; Encode writes the canonical encoding of the stored value, so decode-then-encode is the identity on accepted strings (canonical-encoding injectivity). "
-        "The ZCash coordinate ORDER of G2 (c1 first) is a postcondition that FAILS on the real code: reported as known finding F2 (c0||c1 is written). ECDSA decoders (rawDecodePrivateKey, rawDecodePublicKey, decodePublicKeyCompressed and the DecodeXxx entry points) ARE covered over assumed contracts of crypto/ecdh, btcec, elliptic (accepted sets exact: 32-byte scalars in [1,n-1]; 64 bytes with reduced on-curve coordinates; 33-byte X9.62 compressed points); ECDSA ENCODERS are NOT covered by this check.",
-   note=TRUSTED + " Big-endian limb conversion (limbs_from_be_bytes / be_bytes_from_limbs), Montgomery conversion and the BLST field/curve primitives are assumed contracts (uninterpreted functions). ECDSA half of the property not decided: it would only restate assumed contracts of crypto/elliptic and btcec.",
+        "The ZCash coordinate ORDER of G2 (c1 first) is a postcondition that FAILS on the real code: reported as known finding F2 (c0||c1 is written). ECDSA decoders (rawDecodePrivateKey, rawDecodePublicKey, decodePublicKeyCompressed and the DecodeXxx entry points) ARE covered over assumed contracts of crypto/ecdh, btcec, elliptic (accepted sets exact: 32-byte scalars in [1,n-1]; 64 bytes with reduced on-curve coordinates; 33-byte X9.62 compressed points); ECDSA encoders (rawEncode/Encode of both key types, EncodeCompressed over the assumed contract of elliptic.MarshalCompressed), Size and Equals of the ECDSA and BLS key objects are covered: fixed-width big-endian forms for every coordinate incl. 0 (zero padding proved through the two copies). Round trips are LEMMA FUNCTIONS (/repo/lemmas_verif.go, build tag verif, never called): decode(encode(k)) succeeds and returns the same scalar / the same (X, Y) for ECDSA private keys, ECDSA public keys in raw and in compressed form (using: an on-curve reduced point is what decompressing its own compressed form returns - assumed), and BLS private keys; they are proved from the contracts of encoder and decoder in every run. The BLS public-key round trip at object level is not proved (needs: an on-curve G2 point has a canonical encoding; only decode-then-encode is covered).",
+   note=TRUSTED + " Big-endian limb conversion (limbs_from_be_bytes / be_bytes_from_limbs), Montgomery conversion and the BLST field/curve primitives are assumed contracts (uninterpreted functions). ECDSA: crypto/elliptic, crypto/ecdh, btcec and math/big are assumed contracts; what is proved is the glue (lengths, padding, which bytes go where, which error class, caches).",
    design="§5 C05"),
  "C16": dict(
    text="BLSVerifyPOP(pk, s) is proved to be Verify(pk.Encode(), s) under the hasher popKMAC whose configuration ghost is the PoP ciphersuite key (global fact, checked immutable), BLSGeneratePOP(sk) to be Sign(sk.PublicKey().Encode()) under the same hasher; identity-flagged keys give false. "
@@ -169,7 +169,7 @@ m = {
  "setup_cmd": "cd /verif/engine && PATH=/opt/veriftools/go1.26.8/bin:$PATH GOTOOLCHAIN=local GOFLAGS=-mod=vendor GOPROXY=off GOSUMDB=off go build -o /verif/bin/vcheck ./cmd/vcheck",
  "hooks": {
    "guard": "verif",
-   "enable": "contract files /repo/**/contracts_verif.go carry //go:build verif and contain comments only; vcheck loads /repo with -tags verif and parses the //@ lines",
+   "enable": "contract files /repo/**/contracts_verif.go carry //go:build verif and contain comments only; /repo/lemmas_verif.go (same tag) holds lemma functions: never-called Go functions composing two functions of the module (decode(encode(k))), whose contracts are the round-trip statements; vcheck loads /repo with -tags verif and parses the //@ lines",
    "baseline_off_cmd": "cd /repo && GOFLAGS=-mod=mod go test -vet=off -count=1 -timeout 25m ./...",
    "source_commits": [],
    "add_only": True},
